@@ -11,6 +11,7 @@ import (
 	"os"
 	"os/exec"
 	"strings"
+	"syscall"
 	"time"
 )
 
@@ -50,7 +51,8 @@ func NewSolver(bin string, timeoutMs int) *Solver {
 }
 
 func (s *Solver) start() {
-	s.cmd = exec.Command(s.bin, "-in")
+	s.cmd = exec.Command(s.bin, "-in", "-memory:3000")
+	s.cmd.SysProcAttr = &syscall.SysProcAttr{Pdeathsig: syscall.SIGKILL}
 	w, _ := s.cmd.StdinPipe()
 	r, _ := s.cmd.StdoutPipe()
 	s.cmd.Stderr = nil
@@ -203,6 +205,14 @@ func classify(out string) string {
 
 func (s *Solver) readUntil(marker string) string {
 	var sb strings.Builder
+	// hard wall-clock guard: z3's soft timeout is not always honoured by nlsat
+	cmd := s.cmd
+	timer := time.AfterFunc(time.Duration(s.timeout+8000)*time.Millisecond, func() {
+		if cmd != nil && cmd.Process != nil {
+			cmd.Process.Kill()
+		}
+	})
+	defer timer.Stop()
 	for {
 		line, err := s.out.ReadString('\n')
 		if strings.Contains(line, marker) {
@@ -458,7 +468,7 @@ func (s *Solver) oneShot(extras []*Term, want []*Term) (string, map[string]Model
 	f.Close()
 	secs := s.timeout/1000 + 1
 	for _, bin := range []string{"z3", "z3-new"} {
-		out, _ := exec.Command(bin, fmt.Sprintf("-T:%d", secs), f.Name()).CombinedOutput()
+		out, _ := exec.Command(bin, fmt.Sprintf("-T:%d", secs), "-memory:3000", f.Name()).CombinedOutput()
 		txt := string(out)
 		first := txt
 		rest := ""
